@@ -74,6 +74,8 @@ Fixpoint src_wf (s : source) : bool :=
   | SrcTable _ rows => forallb (forallb val_wf) rows
   | SrcJoin _ l r _ => src_wf l && src_wf r
   | SrcSub q => query_wf q
+  | SrcLateral _ l rw sub _ => src_wf l && query_wf (sub (nulls (src_width l)))
+  | SrcRec _ w base step _ => query_wf base && query_wf (step [nulls w])
   end
 with body_wf (b : body) : bool :=
   match b with
